@@ -35,3 +35,4 @@ package acl
 //@ func NewAuthorizer
 //@   ensures [C23.flags_from_config] result != nil && result.enabled == cfg.Enabled && result.defaultAllow == equalFold(trimSpace(cfg.DefaultPolicy), "allow")
 //@   loop 1 invariant -1 <= rangeindex && rangeindex < len(cfg.Principals) && principals != nil
+//@   at mapupdate#1 before assert [C23.stored_rule_is_config_entry] 0 <= rangeindex && rangeindex < len(cfg.Principals) && value == cfg.Principals[rangeindex] && key == trimSpace(cfg.Principals[rangeindex].Name) && key != ""
